@@ -539,10 +539,54 @@ pub mod gen {
             .boxed()
     }
 
-    /// A real matrix of one of the three kinds, scaled by a power of two and rounded to the scalar type.
+    /// nearly orthogonal / nearly unimodular: U·diag(1 + δ)·Vᵀ with δ = 0 or ±10^-j (a rotation that has drifted, a
+    /// rotation times a scale that is almost one, an f32 rotation widened to f64): determinant within a thin shell
+    /// around ±1 without being ±1, where a shortcut keyed on "det is about one" would fire
+    fn near_unit_mat(n: usize, bits: u32) -> BoxedStrategy<Vec<f64>> {
+        let pi = std::f64::consts::PI;
+        let jmax: f64 = if bits == 32 { 7.0 } else { 14.0 };
+        (
+            proptest::collection::vec(-pi..pi, 6),
+            proptest::collection::vec(-pi..pi, 6),
+            proptest::collection::vec((0u8..4, 2.0f64..jmax, any::<bool>()), n),
+            any::<bool>(),
+            any::<bool>(),
+            any::<bool>(),
+        )
+            .prop_map(move |(au, av, ds, two_sided, via_f32, mirror)| {
+                let u = givens(n, &au);
+                let mut d = vec![0.0; n * n];
+                for i in 0..n {
+                    let (k, j, neg) = ds[i];
+                    let delta = if k == 0 { 0.0 } else { 10f64.powf(-j) * if neg { -1.0 } else { 1.0 } };
+                    d[i * n + i] = 1.0 + delta;
+                }
+                if mirror {
+                    d[0] = -d[0];
+                }
+                let mut m = matmul(n, &u, &d);
+                if two_sided {
+                    let v = givens(n, &av);
+                    let mut vt = vec![0.0; n * n];
+                    for c in 0..n {
+                        for r in 0..n {
+                            vt[c * n + r] = v[r * n + c];
+                        }
+                    }
+                    m = matmul(n, &m, &vt);
+                }
+                if via_f32 {
+                    m.iter_mut().for_each(|x| *x = *x as f32 as f64);
+                }
+                m
+            })
+            .boxed()
+    }
+
+    /// A real matrix of one of the four kinds, scaled by a power of two and rounded to the scalar type.
     pub fn real_mat(n: usize, bits: u32) -> BoxedStrategy<Vec<f64>> {
         let g: i32 = if bits == 32 { 10 } else { 60 };
-        (prop_oneof![45 => kappa_mat(n, bits), 30 => trs_mat(n, bits), 25 => dense_mat(n)], -g..=g, 0u8..3)
+        (prop_oneof![40 => kappa_mat(n, bits), 25 => trs_mat(n, bits), 20 => dense_mat(n), 15 => near_unit_mat(n, bits)], -g..=g, 0u8..3)
             .prop_map(move |(m, g, use_g)| {
                 let s = if use_g == 0 { 2f64.powi(g) } else { 1.0 };
                 m.iter().map(|x| round_to(bits, x * s)).collect::<Vec<f64>>()
